@@ -501,6 +501,34 @@ type ArmResult struct {
 	Externals   []string
 	Instrs      int
 	LogCount    int
+	// Reads: atoms in the support of any output (post-state, guards, call
+	// arguments); Writes: integer leaves whose post-value differs from Init.
+	Reads  []string
+	Writes []string
+}
+
+// readsWrites extracts the read and write sets of an implementation summary.
+func (e *Engine) readsWrites(s *ImplSummary) (reads, writes []string) {
+	c := s.C
+	var nodes []bdd.Node
+	for _, l := range e.Leaves {
+		if l.Width == 0 {
+			continue
+		}
+		v := s.Loc[l.Path]
+		if !v.Equal(c.Atom("Init("+l.Path+")", l.Width)) {
+			writes = append(writes, l.Path)
+			nodes = append(nodes, v...)
+		}
+	}
+	for i := range s.Trace.Events {
+		ev := &s.Trace.Events[i]
+		nodes = append(nodes, ev.Guard)
+		for _, a := range ev.Args {
+			nodes = append(nodes, a...)
+		}
+	}
+	return c.AtomsIn(nodes...), writes
 }
 
 func describeEvents(c *dom.Ctx, t *dom.Trace) []string {
@@ -525,6 +553,7 @@ func (e *Engine) CompareArm(spec Spec) *ArmResult {
 	}
 	res.ImplEvents = describeEvents(c, impl.Trace)
 	res.RefEvents = describeEvents(c, ref.Trace)
+	res.Reads, res.Writes = e.readsWrites(impl)
 	for _, ev := range impl.Trace.Events {
 		if ev.Kind == isa.KindLog {
 			res.LogCount++
